@@ -8,8 +8,12 @@ TRAIT_PATH = {"Debug": "Debug", "Clone": "Clone", "Copy": "Copy", "PartialEq": "
 
 def make(rng, i, force_trait=None):
     """Returns (source, meta) — meta describes what was generated (for the evidence)."""
+    trait0 = force_trait or rng.choice(["Debug", "Clone", "PartialEq", "Hash", "Ord", "PartialOrd", "Default", "Copy", "Eq", "Clone+Copy", "PartialEq+Eq",
+                                        "Ord+PartialOrd", "Into", "Deref", "Deref+DerefMut"])
     lifetimes = rng.choice([[], [], ["'a"], ["'a", "'b: 'a"]])
     n_ty = rng.randint(1, 3)
+    if trait0.startswith("Deref"):
+        lifetimes, n_ty = [], 1          # one field carries the only parameter
     ty_names = ["T", "U", "V"][:n_ty]
     ty_params = []
     for j, n in enumerate(ty_names):
@@ -23,6 +27,8 @@ def make(rng, i, force_trait=None):
         else:
             ty_params.append(n)
     consts = rng.choice([[], [], ["const N: usize"], ["const N: usize", "const M: usize = 3"]])
+    if trait0.startswith("Deref"):
+        consts = []
     has_default = any("=" in p for p in ty_params + consts)
     if has_default and consts and "=" not in consts[-1] and any("=" in p for p in ty_params):
         consts = []          # defaults must be trailing
@@ -35,8 +41,7 @@ def make(rng, i, force_trait=None):
         return rng.choice([p, p, "Option<%s>" % p, "Vec<%s>" % p, "core::marker::PhantomData<%s>" % p, "[%s; %s]" % (p, n_name),
                            "(%s, u8)" % p, "&%s %s" % (lt, p), "u8", "Box<%s>" % p])
     kind = rng.choice(["struct", "enum", "struct", "enum", "struct", "enum", "struct", "enum", "union"])
-    trait = force_trait or rng.choice(["Debug", "Clone", "PartialEq", "Hash", "Ord", "PartialOrd", "Default", "Copy", "Eq", "Clone+Copy", "PartialEq+Eq",
-                                       "Ord+PartialOrd", "Into", "Deref"])
+    trait = trait0
     if kind == "union" and trait not in ("Debug", "Clone", "PartialEq", "Hash", "Copy", "Eq", "Clone+Copy", "PartialEq+Eq", "Default"):
         kind = "struct"
     traits = trait.split("+")
@@ -82,7 +87,8 @@ def make(rng, i, force_trait=None):
                 fattrs[j] = "#[educe(%s(ignore))]" % main
             elif r < 0.45:
                 fattrs[j] = "#[educe(%s(method(m)))]" % main
-    elif main == "Clone" and "Copy" not in traits:
+    elif main == "Clone" and ("Copy" not in traits or kind == "enum"):
+        # with Copy a custom method is accepted on enums only (the struct handler refuses it by design)
         for j in range(len(fields)):
             if rng.random() < 0.3:
                 fattrs[j] = "#[educe(Clone(method(m)))]"
@@ -92,14 +98,14 @@ def make(rng, i, force_trait=None):
                 fattrs[j] = "#[educe(Default(expression = m()))]"
     if main == "Deref":
         fields, fattrs = fields[:1], [""]
-        if lifetimes or consts or n_ty > 1:
-            return make(rng, i, force_trait)        # keep every parameter used
         bp = None
     if main == "Into":
-        target = rng.choice(["u8", "String", "&'static str"])
+        target = rng.choice(["u8", "String", "&'static str", "&str", "&'static [u8]", "&[u8]"])
         meta = "Into(%s%s)" % (target, (", " + bp) if bp else "")
         fattrs = [""] * len(fields)
-        fattrs[rng.randrange(len(fields))] = "#[educe(Into(%s%s))]" % (target, rng.choice(["", ", method(m)"]))
+        # the marker may spell a reference target with or without `'static`
+        mspell = rng.choice([target, target.replace("&'static ", "&"), target.replace("&", "&'static ") if "'static" not in target else target])
+        fattrs[rng.randrange(len(fields))] = "#[educe(Into(%s%s))]" % (mspell, rng.choice(["", ", method(m)"]))
         metas = [meta]
     else:
         metas = []
